@@ -172,7 +172,7 @@ fn before_start_probe() -> GenStream {
 
 /// A stream that copies the *whole* window preceding its own start to the output (126 + 2 matches
 /// at distance 32768): whatever a reset left anywhere in the 32 KiB window becomes visible.
-fn before_start_window_dump() -> GenStream {
+pub fn before_start_window_dump() -> GenStream {
     let mut b = StreamBuilder::new(None);
     b.pre_window_zero = true;
     let mut t: Vec<Token> = (0..126).map(|_| Token::Match { len: 258, dist: 32768 }).collect();
